@@ -1,5 +1,4 @@
 import Drv.Sync
-import Drv.Retrieve
 import Drv.Submit
 import Model.FullNode
 
@@ -108,8 +107,18 @@ def p2pEvent (s : St) (tok : String) : Option Retrieve.Event :=
 /-- every operation on the node / the DA layer goes through `FullNode.hstep` -/
 def hop (s : St) (o : FullNode.HOp) : St := { s with h := FullNode.hstep s.cfg s.h o }
 
+def parseFetch (t : String) : Option Retrieve.Fetch :=
+  match t.splitOn ":" with
+  | ["ok"] => some .ok
+  | ["future"] => some .future
+  | ["notfound"] => some .notFound
+  | ["errids"] => some .errIds
+  | ["errget"] => some (.errGet 0)
+  | ["errget", c] => c.toNat?.map .errGet
+  | _ => none
+
 def parseFetches (t : String) : Option (List Retrieve.Fetch) :=
-  if t = "" || t = "-" then some [] else (t.splitOn ",").mapM Drv.Ret.parseFetch
+  if t = "" || t = "-" then some [] else (t.splitOn ",").mapM parseFetch
 
 def step (s : St) (line : String) : St × String :=
   let o := parseOp line
